@@ -7,7 +7,7 @@ import (
 )
 
 //zzv:bound S1 = one real poll (updateSensor -> Sensor.GetValue -> UpdateSimpleMovingAvg) of a hwmon / file / cmd sensor: previous smoothed value any float64 with |avg| <= 2^20, reading any integer |x| <= 2^20, window n in {1,2,10} (thorough 1..32): min(avg,x) <= avg' <= max(avg,x); by induction the smoothed value stays within the hull of the initial value and all readings
-//zzv:bound S2 = geometric approach as absolute rungs (ratio form does not finish): |avg-c| <= d implies |avg'-c| <= d*(1-1/n)*(1+1e-6) for a constant integer reading c (|c| <= 2^20), d in {2^20, 1000, 1} and n in {2,10} quick; full ladders d = 2^20 .. 1e-3 for n in {2,10} thorough
+//zzv:bound S2 = geometric approach as absolute rungs (ratio form does not finish): |avg-c| <= d implies |avg'-c| <= d*(1-1/n)*(1+1e-6) for a constant integer reading c (|c| <= 2^20), d in {2^20, 1000, 1} and n in {2,10} quick; full ladders d = 2^20 .. 1 for n in {2,10} thorough
 //zzv:bound S3 = a poll whose read fails (file missing / unreadable, command exits non-zero with or without a number on its output, non-numeric text) returns an error and leaves the smoothed value bit-identical, for each sensor backend
 //zzv:bound S4 = a poll whose read yields NaN or +-Inf (cmd sensor printing nan/inf) leaves the smoothed value unchanged
 //zzv:outside windows above 32; magnitudes above 2^20 milli-degrees (1048 degrees); timing of polls; the initial seeding read
@@ -99,10 +99,10 @@ func ZZ_C08_S2_Rungs() {
 		zzRung(n, []float64{1048576, 1000, 1}[zzv.Choice("distance", 3)])
 		return
 	}
-	// full ladder from 2^20 down to 1e-3
+	// full ladder from 2^20 down to 1
 	d := 1048576.0
 	k := 0
-	for d > 1e-3 {
+	for d > 1 {
 		d = d * (1.0 - 1.0/float64(n)) * (1.0 + 1e-6)
 		k++
 	}
